@@ -326,8 +326,10 @@ static inline int vnadata_set_frequency_vector(vnadata_t *vdp,
 	errno = EINVAL;
 	return -1;
     }
-    (void)memcpy((void *)vdp->vd_frequency_vector, (void *)frequency_vector,
-	vdp->vd_frequencies * sizeof(double));
+    if (vdp->vd_frequencies > 0) {
+	(void)memcpy((void *)vdp->vd_frequency_vector,
+	    (void *)frequency_vector, vdp->vd_frequencies * sizeof(double));
+    }
     return 0;
 }
 
